@@ -167,6 +167,13 @@ def extra(report, env):
         cases += 1
         if bad and len(fails) < 5:
             fails.append({'formula': text, 'walk': tree, 'silent': silent, 'detail': 'listeners silent on events %r: %s' % (silent, bad)})
+    for seq, exp in (([0], 0), ([0.0], 0.0), ([False], False), ([''], ''), ([None, 0], 0), ([5, 0], 0), ([[]], [])):
+        q = e2e.new_parser()
+        q.on('callVariable', lambda name, st, _s=seq: [st(x) for x in _s])
+        r = q.parse('unknownname')
+        cases += 1
+        if (r['error'] is not None or r['result'] != exp or type(r['result']) is not type(exp)) and len(fails) < 5:
+            fails.append({'formula': 'unknownname', 'detail': 'a listener answers an unregistered name with %r: the reference is worth %r, got %r' % (seq, exp, r)})
     bounded(report, 'C10.events', '5 subsets of listener kinds x 7 formulas (only the events of registered kinds, a range nobody answers stays blank, an unknown name is #NAME? after its one event), event logs after seeded histories of 2..6 references on one parser (reversed-corner ranges, shared corners) against a fresh parser, listeners re-entering the same parser while a cell is being resolved (3 orders of hand-over x with/without a second listener x 8 formulas), 7 columns x 5 rows x 4 $-patterns, 18 ranges (all corner orders), 4 ordering formulas, 9 setter sequences x 4 events, seeded formulas with '
             'repeated references (<= 6 atoms from 2 variables, 2 cells, 1 range, SUM / MAX calls) against a reference walk: one event per occurrence, '
             'each occurrence valued by its own setter, and again with listeners silent on a random 40% of the events (blank / the variable own value)', cases, fails)
